@@ -174,4 +174,122 @@ func ruleIOConv(c *Ctx) {
 		}
 	}
 	c.check(okRT, "rt-reset", scanCall.Pos(), "RT is reset to RS immediately before each Scan (splitters that know better overwrite it)", "RT is not reset to RS before each Scan: with a single-character RS, RT keeps the value of an earlier record or stream")
+	csvWriterConfig(c)
+}
+
+// csvWriterConfig: (CSVW) every record written through encoding/csv is written with the separator and
+// line ending that are in force now: each call of (*csv.Writer).Write in package interp is reached only
+// through stores of the writer's Comma (from the output configuration) and UseCRLF in the same function
+// (OUTPUTMODE can change between two records, and an Interpreter can be reused with another separator);
+// and (EMPTY) a record consisting of one empty field does not reach Write at all (encoding/csv writes it
+// as an empty line, which CSV readers skip), but is written quoted.
+func csvWriterConfig(c *Ctx) {
+	nW := 0
+	for _, fn := range c.srcFuncs("interp") {
+		var writes []*ssa.Call
+		stores := map[string][]*ssa.BasicBlock{}
+		for _, b := range fn.Blocks {
+			for _, in := range b.Instrs {
+				switch x := in.(type) {
+				case *ssa.Call:
+					if f := calleeObj(x); f != nil && funcFullName(f) == "(*encoding/csv.Writer).Write" {
+						writes = append(writes, x)
+					}
+				case *ssa.Store:
+					if f, base := fieldOfAddr(x.Addr); f != nil && isNamed(deref(base.Type()), "encoding/csv", "Writer") {
+						stores[f.Name()] = append(stores[f.Name()], b)
+					}
+				}
+			}
+		}
+		for i, w := range writes {
+			nW++
+			key := "csv-writer:" + fnKey(fn)
+			if i > 0 {
+				key += "#" + itoa(int64(i+1))
+			}
+			var missing []string
+			for _, field := range []string{"Comma", "UseCRLF"} {
+				avoid := map[*ssa.BasicBlock]bool{}
+				for _, b := range stores[field] {
+					avoid[b] = true
+				}
+				// is the Write block reachable from the entry without passing a store block?
+				if avoid[w.Block()] {
+					// a store in the same block: it must come before the call
+					before := false
+					for _, in := range w.Block().Instrs {
+						if in == ssa.Instruction(w) {
+							break
+						}
+						if st, ok := in.(*ssa.Store); ok {
+							if f, _ := fieldOfAddr(st.Addr); f != nil && f.Name() == field {
+								before = true
+							}
+						}
+					}
+					if before {
+						continue
+					}
+				}
+				seen := map[*ssa.BasicBlock]bool{fn.Blocks[0]: true}
+				work := []*ssa.BasicBlock{fn.Blocks[0]}
+				reached := false
+				for len(work) > 0 {
+					cur := work[len(work)-1]
+					work = work[:len(work)-1]
+					if cur == w.Block() {
+						reached = true
+						break
+					}
+					if avoid[cur] {
+						continue
+					}
+					for _, s := range cur.Succs {
+						if !seen[s] {
+							seen[s] = true
+							work = append(work, s)
+						}
+					}
+				}
+				if reached {
+					missing = append(missing, field)
+				}
+			}
+			c.check(len(missing) == 0, key, w.Pos(), "the writer's Comma and UseCRLF are set on every path to the write",
+				fnKey(fn)+" can call csv.Writer.Write without having set "+strings.Join(missing, " and ")+" on that path (a cached writer keeps the values of its creation): after OUTPUTMODE or the Interpreter's configuration changes the separator, records are still joined and quoted with the old one and do not read back")
+			// EMPTY: a guard len(fields)==1 && fields[0]=="" keeps the single empty field away from Write
+			guard := false
+			for _, b := range fn.Blocks {
+				if len(b.Instrs) == 0 {
+					continue
+				}
+				iff, ok := b.Instrs[len(b.Instrs)-1].(*ssa.If)
+				if !ok {
+					continue
+				}
+				cmp, ok := iff.Cond.(*ssa.BinOp)
+				if !ok || cmp.Op != token.EQL {
+					continue
+				}
+				// fields[0] == ""
+				isEmptyCmp := false
+				for _, side := range [][2]ssa.Value{{cmp.X, cmp.Y}, {cmp.Y, cmp.X}} {
+					if k, ok := side[1].(*ssa.Const); ok && k.Value != nil && k.Value.ExactString() == `""` {
+						if u, ok := side[0].(*ssa.UnOp); ok {
+							if _, ok := u.X.(*ssa.IndexAddr); ok {
+								isEmptyCmp = true
+							}
+						}
+					}
+				}
+				if isEmptyCmp && !reachableFrom(b.Succs[0])[w.Block()] && b.Succs[0] != w.Block() {
+					guard = true
+				}
+			}
+			c.check(guard, key+":single-empty-field", w.Pos(), "a record of one empty field is kept away from csv.Writer.Write (written quoted instead)",
+				fnKey(fn)+" passes a record consisting of one empty field to csv.Writer.Write, which writes it as an empty line: CSV readers, the CSV input mode included, skip empty lines, so the record does not read back")
+		}
+	}
+	c.atLeast("csv.Writer.Write call sites", nW, 1)
 }
